@@ -4,6 +4,7 @@ import (
 	"fmt"
 	"go/constant"
 	"go/token"
+	"go/types"
 	"math"
 	"strings"
 
@@ -22,6 +23,7 @@ func rulesC02(c *Ctx, r *Report) {
 	rulesFastqLayout(c, r)
 	rulesScanAliasPkg(c, r, "formats/fastq")
 	rulesPassAllFor(c, r, "formats/fastq", 3)
+	rulesNoBufferedPkg(c, r, "formats/fastq")
 }
 
 // rulesScanBuf (SC-BUF): NewScanner -> Buffer(max >= 2^30) before the scanner leaves the constructor / is scanned.
@@ -190,6 +192,35 @@ func rulesFastqLayout(c *Ctx, r *Report) {
 		}
 	}
 	r.check(okScans, "F4L", where, "four lines read", c.pos(acc.Pos()), "the accepting path passes exactly four line reads (Scan, directly or through a helper), each of which delivered a line: a record cut short before its fourth line cannot be accepted", fmt.Sprintf("the accepting path passes %d line reads (want 4) or a failed read can reach it: a truncated record can be fabricated", len(scans)))
+	// REJECT-EOF: once line 1 was delivered, no return may carry io.EOF (the iterator takes io.EOF for a clean end)
+	if len(scans) > 0 {
+		nLate, nEOF := 0, 0
+		var bad []string
+		instrs(rd, func(in ssa.Instruction) {
+			rt, ok := in.(*ssa.Return)
+			if !ok {
+				return
+			}
+			ops := retOperands(rt)
+			if len(ops) != 2 {
+				return
+			}
+			eof := mayBeEOF(c, ops[1], map[ssa.Value]bool{}, 0)
+			if eof {
+				nEOF++
+			}
+			if !scans[0].ok(rt.Block()) {
+				return
+			}
+			nLate++
+			if eof {
+				bad = append(bad, c.pos(rt.Pos()))
+			}
+		})
+		r.check(len(bad) == 0, "REJECT", where, "io.EOF only before line 1", c.pos(rd.Pos()),
+			fmt.Sprintf("none of the %d returns behind a delivered first line can carry io.EOF; %d return(s) before it do: a record cut short is an error, not a clean end", nLate, nEOF),
+			fmt.Sprintf("a return behind a delivered first line can carry io.EOF (%v), which the iterator takes for a clean end of input: a record cut short is dropped silently", bad))
+	}
 	// views: for a value, which scan produced it (latest Scan dominating its Bytes() call)
 	scanOf := func(v ssa.Value) int {
 		seen := map[ssa.Value]bool{}
@@ -488,6 +519,60 @@ func errNilEdgeDominates(call *ssa.Call, target *ssa.BasicBlock) bool {
 				return true
 			}
 		}
+	}
+	return false
+}
+
+// mayBeEOF: the error value can be io.EOF itself: a load of the global, a phi or pass-through of one, or the
+// result of a module helper that is handed io.EOF or returns it.
+func mayBeEOF(c *Ctx, v ssa.Value, seen map[ssa.Value]bool, depth int) bool {
+	if v == nil || seen[v] || depth > 3 {
+		return false
+	}
+	seen[v] = true
+	switch x := v.(type) {
+	case *ssa.UnOp:
+		if g, ok := x.X.(*ssa.Global); ok && x.Op == token.MUL {
+			return g.Pkg != nil && g.Pkg.Pkg.Path() == "io" && g.Name() == "EOF"
+		}
+		if al, ok := x.X.(*ssa.Alloc); ok && x.Op == token.MUL {
+			for _, ref := range *al.Referrers() {
+				if st, ok := ref.(*ssa.Store); ok && st.Addr == ssa.Value(al) && mayBeEOF(c, st.Val, seen, depth) {
+					return true
+				}
+			}
+		}
+	case *ssa.Phi:
+		for _, e := range x.Edges {
+			if mayBeEOF(c, e, seen, depth) {
+				return true
+			}
+		}
+	case *ssa.Extract:
+		return mayBeEOF(c, x.Tuple, seen, depth)
+	case *ssa.ChangeInterface:
+		return mayBeEOF(c, x.X, seen, depth)
+	case *ssa.Call:
+		g := x.Call.StaticCallee()
+		if g == nil || g.Blocks == nil || !c.inModule(g) {
+			return false
+		}
+		for _, a := range x.Call.Args {
+			if types.Identical(a.Type(), errorType) && mayBeEOF(c, a, seen, depth) {
+				return true
+			}
+		}
+		found := false
+		instrs(g, func(in ssa.Instruction) {
+			if rt, ok := in.(*ssa.Return); ok {
+				for _, op := range retOperands(rt) {
+					if types.Identical(op.Type(), errorType) && mayBeEOF(c, op, map[ssa.Value]bool{}, depth+1) {
+						found = true
+					}
+				}
+			}
+		})
+		return found
 	}
 	return false
 }
